@@ -7,8 +7,8 @@ open Dsw.FloatErr
 
 /-- the arithmetic core, with all constants abstract. -/
 theorem cert_core (s Y E Z X T δ θ η κ u ε ζ : Rat)
-    (hθ : 0 < θ) (hE : θ ≤ E) (hη0 : 0 ≤ η) (hηθ : 2 * η ≤ θ) (hκ0 : 0 ≤ κ) (hκ : 4 * κ ≤ θ * θ)
-    (hu0 : 0 ≤ u) (hu1 : u ≤ 1) (hε0 : 0 ≤ ε) (hε1 : ε ≤ 1) (hζ1 : ζ ≤ 1)
+    (hθ : 0 < θ) (hE : θ ≤ E) (hηθ : 2 * η ≤ θ) (hκ0 : 0 ≤ κ) (hκ : 4 * κ ≤ θ * θ)
+    (hu0 : 0 ≤ u) (hu1 : u ≤ 1) (hζ0' : 0 ≤ ζ) (hζ1 : ζ ≤ 1)
     (F1 : 1 ≤ (1 + ζ) * ((1 - ε) * (1 - u))) (F2 : (1 - ζ) * ((1 + ε) * (1 + u)) ≤ 1)
     (hs0 : 0 ≤ s) (hY0 : 0 ≤ Y) (hY1 : Y ≤ s * (1 + ε) + κ) (hY2 : s * (1 - ε) - κ ≤ Y)
     (hZ : |Z - Y / E| ≤ u * |Y / E| + η) (hZX : |Z - X| < T)
@@ -32,43 +32,102 @@ theorem cert_core (s Y E Z X T δ θ η κ u ε ζ : Rat)
   have hjunk : E * η + 2 * κ ≤ E * θ := by
     have h1 : E * (θ - 2 * η) ≥ 0 := mul_nonneg (le_of_lt hEpos) (by linarith)
     have h2 : θ * θ ≤ E * θ := mul_le_mul_of_nonneg_right hE (le_of_lt hθ)
-    nlinarith
+    linarith
   constructor
   · -- lower
     have b2 : E * Z - E * η ≤ W * E * (1 + u) := by
       have := mul_le_mul_of_nonneg_left hZ2 (le_of_lt hEpos)
-      nlinarith
+      linarith
     have b3 : E * (X - T) ≤ E * Z := mul_le_mul_of_nonneg_left (by linarith) (le_of_lt hEpos)
     have b4 : (W * E - κ) * (1 + u) ≤ s * (1 + ε) * (1 + u) :=
       mul_le_mul_of_nonneg_right (by linarith) (by linarith)
     have b5 : κ * u ≤ κ := mul_le_of_le_one_right hκ0 hu1
     have b6 : E * (X - Q) ≤ E * (X - T - θ) := mul_le_mul_of_nonneg_left (by linarith) (le_of_lt hEpos)
-    have hM : E * (X - Q) ≤ s * ((1 + ε) * (1 + u)) := by nlinarith
+    have hM : E * (X - Q) ≤ s * ((1 + ε) * (1 + u)) := by linarith
     have b7 : (1 - ζ) * (E * (X - Q)) ≤ (1 - ζ) * (s * ((1 + ε) * (1 + u))) :=
       mul_le_mul_of_nonneg_left hM (by linarith)
     have b8 : s * ((1 - ζ) * ((1 + ε) * (1 + u))) ≤ s * 1 := mul_le_mul_of_nonneg_left F2 hs0
     have e : E * (1 - (T + θ) / δ) * (1 - ζ) * X = (1 - ζ) * (E * (X - Q)) := by rw [hQ]; ring
     rw [e]
-    nlinarith
+    linarith
   · -- upper
     have a2 : W * E * (1 - u) ≤ E * Z + E * η := by
       have := mul_le_mul_of_nonneg_left hZ1 (le_of_lt hEpos)
-      nlinarith
+      linarith
     have a3 : E * Z ≤ E * (X + T) := mul_le_mul_of_nonneg_left (by linarith) (le_of_lt hEpos)
     have a4 : s * (1 - ε) * (1 - u) ≤ (W * E + κ) * (1 - u) :=
       mul_le_mul_of_nonneg_right (by linarith) (by linarith)
     have a5 : 0 ≤ κ * u := mul_nonneg hκ0 hu0
     have a6 : E * (X + T + θ) ≤ E * (X + Q) := mul_le_mul_of_nonneg_left (by linarith) (le_of_lt hEpos)
-    have hM : s * ((1 - ε) * (1 - u)) ≤ E * (X + Q) := by nlinarith
-    have hζ0 : 0 ≤ 1 + ζ := by
-      by_contra hc
-      have h1 : (1 - ε) * (1 - u) ≥ 0 := mul_nonneg (by linarith) (by linarith)
-      nlinarith
+    have hM : s * ((1 - ε) * (1 - u)) ≤ E * (X + Q) := by linarith
+    have hζ0 : 0 ≤ 1 + ζ := by linarith
     have a7 : (1 + ζ) * (s * ((1 - ε) * (1 - u))) ≤ (1 + ζ) * (E * (X + Q)) :=
       mul_le_mul_of_nonneg_left hM hζ0
     have a8 : s * 1 ≤ s * ((1 + ζ) * ((1 - ε) * (1 - u))) := mul_le_mul_of_nonneg_left F1 hs0
     have e : E * (1 + (T + θ) / δ) * (1 + ζ) * X = (1 + ζ) * (E * (X + Q)) := by rw [hQ]; ring
     rw [e]
-    nlinarith
+    linarith
+
+theorem eta_theta : 2 * (2 : Rat)⁻¹ ^ 1075 ≤ (2 : Rat)⁻¹ ^ 500 := by
+  have e : (2 : Rat)⁻¹ ^ 1075 = (2 : Rat)⁻¹ ^ 500 * (2 : Rat)⁻¹ ^ 575 := by rw [← pow_add]
+  have h1 : (2 : Rat)⁻¹ ^ 575 ≤ (2 : Rat)⁻¹ ^ 1 := pow_le_pow_of_le_one (by norm_num) (by norm_num) (by norm_num)
+  have hp : (0 : Rat) ≤ (2 : Rat)⁻¹ ^ 500 := by positivity
+  rw [e]
+  have := mul_le_mul_of_nonneg_left h1 hp
+  generalize (2 : Rat)⁻¹ ^ 500 = K at *
+  generalize (2 : Rat)⁻¹ ^ 575 = L at *
+  norm_num at this
+  linarith
+
+theorem kappa_theta : 4 * (2 : Rat)⁻¹ ^ 1070 ≤ (2 : Rat)⁻¹ ^ 500 * (2 : Rat)⁻¹ ^ 500 := by
+  have e : (2 : Rat)⁻¹ ^ 1070 = (2 : Rat)⁻¹ ^ 500 * (2 : Rat)⁻¹ ^ 500 * (2 : Rat)⁻¹ ^ 70 := by
+    rw [← pow_add, ← pow_add]
+  have h1 : (2 : Rat)⁻¹ ^ 70 ≤ (2 : Rat)⁻¹ ^ 2 := pow_le_pow_of_le_one (by norm_num) (by norm_num) (by norm_num)
+  have hp : (0 : Rat) ≤ (2 : Rat)⁻¹ ^ 500 * (2 : Rat)⁻¹ ^ 500 := by positivity
+  rw [e]
+  have := mul_le_mul_of_nonneg_left h1 hp
+  generalize (2 : Rat)⁻¹ ^ 500 * (2 : Rat)⁻¹ ^ 500 = K at *
+  generalize (2 : Rat)⁻¹ ^ 70 = L at *
+  norm_num at this
+  linarith
+
+theorem F1_const : (1 : Rat) ≤ (1 + (2 : Rat)⁻¹ ^ 50) * ((1 - (2 : Rat)⁻¹ ^ 51) * (1 - (2 : Rat)⁻¹ ^ 53)) := by
+  norm_num
+
+theorem F2_const : (1 - (2 : Rat)⁻¹ ^ 50) * ((1 + (2 : Rat)⁻¹ ^ 51) * (1 + (2 : Rat)⁻¹ ^ 53)) ≤ (1 : Rat) := by
+  norm_num
+
+/-- the certificate, in terms of `val`. -/
+theorem stop_certificate (a : Acc) (x z : VecF) (ev tol md : Dbl) (δ : Rat) (S : Nat → Prop)
+    (hx : ∀ w, w < a.size → IsB64 (x.getD w Dbl.zero).num (x.getD w Dbl.zero).den ∧ 0 ≤ (x.getD w Dbl.zero).num)
+    (ha : ∀ v, v < a.size → ∀ w ∈ a.liveEntries (v : Int), w < a.size)
+    (hstep : capStepF a x = some (z, ev)) (hev : (2 : Rat)⁻¹ ^ 500 ≤ val ev)
+    (htol : IsB64 tol.num tol.den ∧ 0 ≤ tol.num)
+    (hmd : maxDiffF a.size z x = some md) (hset : Dbl.lt md tol = true)
+    (hδ : (2 : Rat)⁻¹ ^ 500 ≤ δ) (hS : ∀ v, S v → v < a.size ∧ δ ≤ val (x.getD v Dbl.zero)) :
+    ∀ v, S v →
+      val ev * (1 - (val tol + (2 : Rat)⁻¹ ^ 500) / δ) * (1 - (2 : Rat)⁻¹ ^ 50) * (x.map val).getD v 0
+        ≤ applyRow a (x.map val) v ∧
+      applyRow a (x.map val) v
+        ≤ val ev * (1 + (val tol + (2 : Rat)⁻¹ ^ 500) / δ) * (1 + (2 : Rat)⁻¹ ^ 50) * (x.map val).getD v 0 := by
+  intro v hSv
+  obtain ⟨hv, hXδ⟩ := hS v hSv
+  have hθ : (0 : Rat) < (2 : Rat)⁻¹ ^ 500 := by positivity
+  obtain ⟨_, hevB, _, hrows⟩ := step_data a x z ev hx ha hstep
+  have hevnum : 0 < ev.num := num_pos_of_val_pos (lt_of_lt_of_le hθ hev)
+  have hden : ∀ w, w < a.size → 0 < (z.getD w Dbl.zero).den ∧ 0 < (x.getD w Dbl.zero).den := by
+    intro w hw
+    obtain ⟨_, _, hzB, _, _⟩ := hrows w hw
+    exact ⟨hzB.1, (hx w hw).1.1⟩
+  have hsettled := settled_entry a.size z x md tol hmd hden htol hset v hv
+  obtain ⟨y, hy, _, _, hdiv⟩ := hrows v hv
+  obtain ⟨hY2, hY1, hyB, hy0, hs0⟩ := rowSum_bound a x v y hx (ha v hv) hy
+  have hZ := div_err y ev _ hyB.1 hevB.1 hevnum (hdiv hevnum)
+  rw [map_val_getD]
+  exact cert_core _ (val y) (val ev) (val (z.getD v Dbl.zero)) (val (x.getD v Dbl.zero)) (val tol) δ
+    ((2 : Rat)⁻¹ ^ 500) ((2 : Rat)⁻¹ ^ 1075) ((2 : Rat)⁻¹ ^ 1070) ((2 : Rat)⁻¹ ^ 53) ((2 : Rat)⁻¹ ^ 51)
+    ((2 : Rat)⁻¹ ^ 50) hθ hev eta_theta (by positivity) kappa_theta (by positivity) (by norm_num)
+    (by positivity) (by norm_num) F1_const F2_const hs0 (val_nonneg hy0) hY1 hY2 hZ hsettled
+    (lt_of_lt_of_le hθ hδ) hXδ
 
 end Dsw.PowerStopF
